@@ -31,6 +31,7 @@ structure State where
   tainted : Bool := false        -- a treatment broke i = sum(mort) earlier in this run (F20)
   soil : List Int := []          -- soil cohorts at the observed cell
   treats : List (TreatSpec × TreatApp × List Rat) := []   -- Treatments container (after clear_after_step)
+  soilCells : List (List Int) := []   -- soil cohorts per cell after the previous model step
 deriving Inhabited
 
 def intList? (s : String) : Option (List Int) :=
@@ -204,7 +205,7 @@ def handle (st : State) (cmd : String) (inp obsToks : List String) : State × St
     match modelTypeFromString mt, parseNat? lat, parseNat? rows, parseNat? cols with
     | .ok mt, some l, some r, some c =>
       let z := List.replicate (r * c) (0 : Int)
-      ({ st with mt := mt, latency := l, rows := r, cols := c, cells := [], suit := [], tainted := false, uniforms := [],
+      ({ st with mt := mt, latency := l, rows := r, cols := c, cells := [], suit := [], tainted := false, uniforms := [], soilCells := [], treats := [],
                  pest := { disp := z, est := z, outside := [] } }, "ok")
     | _, _, _, _ => (st, "BADLINE")
   | "hp.state", [] =>
@@ -278,6 +279,24 @@ def handle (st : State) (cmd : String) (inp obsToks : List String) : State × St
         ({ st with soil := post }, if exp == post then "ok" else s!"PROPFAIL C04 soil_ageing expected={exp} observed={post}")
       | none => (st, "BADLINE")
     | _ => (st, "BADLINE")
+  -- soil cohorts of every cell after a model step: hp.soilstate step spread? => c0,c1 c0,c1 ...
+  | "hp.soilstate", [_stepTok, spreadTok] =>
+    match obsToks.mapM intList? with
+    | none => (st, "BADLINE")
+    | some cur =>
+      let st' := { st with soilCells := cur }
+      if st.soilCells.isEmpty then (st', "ok")
+      else
+        -- C04: soil cohorts age by one position per model step and the youngest is cleared; in a
+        -- step without spread nothing is stored or released, in a spread step older cohorts can only shrink
+        let bad := (List.zip st.soilCells cur).findSome? fun (prev, now) =>
+          let aged := soilNext prev
+          if now.any (· < 0) then some "PROPFAIL C02 nonneg soil_cohorts"
+          else if spreadTok == "0" && now != aged then some s!"PROPFAIL C04 soil_ageing previous={prev} now={now} expected={aged}"
+          else if spreadTok == "1" && (List.zip now.dropLast aged.dropLast).any (fun (a, b) => a > b) then
+            some s!"PROPFAIL C04 soil_ageing previous={prev} now={now} aged={aged}"
+          else none
+        (st', bad.getD "ok")
   | "hp.uniforms", [us] =>
     match (us.splitOn ",").mapM parseInt? with
     | some l => ({ st with uniforms := l.map fun k => mkRat k 1048576 }, "ok")
@@ -321,7 +340,9 @@ def handle (st : State) (cmd : String) (inp obsToks : List String) : State × St
           let orderOK := obsKinds == documentedOrder.filter (obsKinds.contains ·) && obsKinds.eraseDups == obsKinds
           let iffOK := documentedOrder.all fun k => obsKinds.contains k == st.cfg.runs step k
           let idxOK := observed.all fun (k, i) => match st.cfg.inputIndex step k with | some j => i == (j : Int) | none => true
-          if !orderOK then (st, s!"PROPFAIL C09 order step={step} trace={tr}")
+          let treatDue := st.cfg.useTreatments && st.treats.any fun t => t.1.eventAt step != .nothing
+          if treatDue && !(obsKinds.contains .treatments) then (st, s!"PROPFAIL C10 treatment_not_applied_at_its_step step={step} trace={tr}")
+          else if !orderOK then (st, s!"PROPFAIL C09 order step={step} trace={tr}")
           else if !iffOK then (st, s!"PROPFAIL C09 enabled_and_scheduled step={step} trace={tr} expected={expKinds.map ActionKind.name}")
           else if !idxOK then (st, s!"PROPFAIL C09 input_index step={step} trace={tr}")
           else if obsKinds != expKinds then (st, s!"MISMATCH hp.plan model={expKinds.map ActionKind.name}")
@@ -413,15 +434,20 @@ def handle (st : State) (cmd : String) (inp obsToks : List String) : State × St
         match parseInt? r, parseInt? c, parseInt? kk, o.ret with
         | some r, some c, some kk, [ret] =>
           let k := idx st r c
-          match invariants pre post reclass true noSkip with
-          | some v => finish st o v
-          | none =>
-            let cell := pre[k]!
+          let cell := pre[k]!
+          let cell' := post[k]!
+          -- C17 arrival: min(count, susceptible) establish, the rest die (evaluated on the observed state)
+          let arrival : Option String :=
+            if cell.s ≥ 0 && kk ≥ 0 && (ret ≠ toString (min kk cell.s) || cell'.i != cell.i + min kk cell.s || cell'.s != cell.s - min kk cell.s) then
+              some s!"PROPFAIL C17 arrival ret={ret} established={cell'.i - cell.i} expected={min kk cell.s}"
+            else none
+          match invariants pre post reclass true noSkip, arrival with
+          | some v, some a => finish st o (v ++ " ;; " ++ a)
+          | some v, none => finish st o v
+          | none, some a => finish st o a
+          | none, none =>
             let (c', res) := cell.pestsTo kk
-            -- C17 arrival: min(count, susceptible) establish; C02: never more than requested / present
-            if cell.s ≥ 0 && kk ≥ 0 && ret ≠ toString (min kk cell.s) then
-              finish st o s!"PROPFAIL C17 arrival ret={ret} expected={min kk cell.s}"
-            else if toString res ≠ ret then finish st o s!"MISMATCH hp.peststo ret model={res}"
+            if toString res ≠ ret then finish st o s!"MISMATCH hp.peststo ret model={res}"
             else finish st o (cmpCells cmd (pre.set k c') post)
         | _, _, _, _ => (st, "BADLINE")
       -- move_hosts_from_to r1 c1 r2 c2 count
@@ -607,7 +633,7 @@ def handle (st : State) (cmd : String) (inp obsToks : List String) : State × St
           | some v => finish st o v
           | none =>
             if !anyEvent && post != pre then finish st o s!"PROPFAIL C10 changed_without_scheduled_treatment step={step}"
-            else if o.ret != [if anyEvent then "1" else "0"] then finish st o s!"PROPFAIL C10 manage_reports_change step={step} ret={o.ret}"
+            else if o.ret != ["-"] && o.ret != [if anyEvent then "1" else "0"] then finish st o s!"PROPFAIL C10 manage_reports_change step={step} ret={o.ret}"
             else
               -- replay in list order; remember whether a ratio treatment met the F20 region
               let (exp, f20) := events.foldl (fun (acc : List Cell × Bool) e =>
@@ -629,7 +655,7 @@ def handle (st : State) (cmd : String) (inp obsToks : List String) : State × St
                 let broke := (List.range pre.length).findSome? fun k =>
                   if (pre[k]!).mortOK && !(post[k]!).mortOK then some k else none
                 match broke with
-                | some k => finish st o (if f20 then s!"KNOWN C03 F20 cell={k} step={step} through Treatments::manage" else s!"PROPFAIL C03 mortality_cohorts cell={k} step={step}")
+                | some k => finish { st with tainted := true } o (if f20 then s!"KNOWN C03 F20 cell={k} step={step} through Treatments::manage" else s!"PROPFAIL C03 mortality_cohorts cell={k} step={step}")
                 | none => finish st o "ok"
       -- generic per-action snapshot from the model hook: action step idx
       | "hp.after", [action, _step, _idx] =>
@@ -701,9 +727,9 @@ def handle (st : State) (cmd : String) (inp obsToks : List String) : State × St
           | _, _, _ => (st, "BADLINE spread-obs")
         | _, _, _, _, _, _, _, _, _ => (st, "BADLINE spread")
       -- overpopulation through the model: threshold leaving drow dcol (deterministic neighbour kernel)
-      | "hp.overpop", [thr, leave, dr, dc] =>
-        match parseRat? thr, parseRat? leave, parseInt? dr, parseInt? dc, segments obsToks with
-        | some thr, some leave, some dr, some dc, [_, _, _, outT] =>
+      | "hp.overpop", [thr, leave, drT, dcT] =>
+        match parseRat? thr, parseRat? leave, segments obsToks with
+        | some thr, some leave, [_, _, _, outT] =>
           match outT.mapM pair? with
           | none => (st, "BADLINE")
           | some outO =>
@@ -711,10 +737,7 @@ def handle (st : State) (cmd : String) (inp obsToks : List String) : State × St
             match invariants pre post reclass true noSkip with
             | some v => finish st o v
             | none =>
-              let departing := st.suit.filter fun (r, c) =>
-                let cell := pre[g.idx r c]!
-                decide (cell.i > 1) && decide (((cell.i : Int) : Rat) / ((cell.s + cell.i : Int) : Rat) ≥ thr)
-              let targets := departing.map fun (r, c) => (r + dr, c + dc)
+              let departing := st.suit.filter fun (r, c) => departs thr (pre[g.idx r c]!)
               -- C17: cells that do not qualify keep their pests; a source loses round(i x share)
               let stay : Option String := (List.range pre.length).findSome? fun k =>
                 let a := pre[k]!; let b := post[k]!
@@ -723,13 +746,27 @@ def handle (st : State) (cmd : String) (inp obsToks : List String) : State × St
               match stay with
               | some v => finish st o v
               | none =>
-                let expOut := (departing.zip targets).flatMap fun ((r, c), (tr, tc)) =>
-                  if g.isOutside tr tc then List.replicate (lround (((pre[g.idx r c]!).i : Rat) * leave)).toNat (tr, tc) else []
-                if outO != expOut then finish st o s!"PROPFAIL C17 outside_recorded observed={outO.length} expected={expOut.length}"
-                else
-                  let (cells', _, _) := overpopulationStep g st.suit pre { st.pest with outside := [] } thr leave targets
-                  finish st o (cmpCells cmd cells' post)
-        | _, _, _, _, _ => (st, "BADLINE")
+                match parseInt? drT, parseInt? dcT with
+                | some dr, some dc =>
+                  -- deterministic neighbour kernel: targets are known, exact replay
+                  let targets := departing.map fun (r, c) => (r + dr, c + dc)
+                  let expOut := (departing.zip targets).flatMap fun ((r, c), (tr, tc)) =>
+                    if g.isOutside tr tc then List.replicate (leavingCount leave (pre[g.idx r c]!)).toNat (tr, tc) else []
+                  if outO != expOut then finish st o s!"PROPFAIL C17 outside_recorded observed={outO.length} expected={expOut.length}"
+                  else
+                    let (cells', _, _) := overpopulationStep g st.suit pre { st.pest with outside := [] } thr leave targets
+                    finish st o (cmpCells cmd cells' post)
+                | _, _ =>
+                  -- uniform natural kernel: destinations are unknown but always inside the study area;
+                  -- pests that leave either establish somewhere or vanish, none is recorded outside
+                  let left := sumL (departing.map fun (r, c) => leavingCount leave (pre[g.idx r c]!))
+                  let infectedBefore := sumL (pre.map (·.i))
+                  let infectedAfter := sumL (post.map (·.i))
+                  if !outO.isEmpty then finish st o s!"PROPFAIL C17 uniform_destination_outside recorded={outO.length} first={outO.head!}"
+                  else if infectedAfter > infectedBefore || infectedAfter < infectedBefore - left then
+                    finish st o s!"PROPFAIL C17 leaving_count infected_before={infectedBefore} after={infectedAfter} left={left}"
+                  else finish st o "ok"
+        | _, _, _ => (st, "BADLINE")
       -- host movement through the model: step last sched:r1,c1,r2,c2,n ...  => newlast
       | "hp.movement", stepTok :: lastTok :: rowToks =>
         let rows? : Option (List (Nat × List Int)) := rowToks.mapM fun t =>
